@@ -151,12 +151,58 @@ func buildVia(entry string, cfg cors.Config) (*cors.Middleware, error) {
 		}
 		err = m.Reconfigure(&cfg)
 		return m, err
+	case "reconf-neighbour":
+		// prior state = a configuration that differs from cfg in ONE field only and is accepted (so that an
+		// incremental / state-reusing Reconfigure has something to reuse); the library is only used here to
+		// pick the prior state, the verdict on cfg is still judged by S4
+		for _, nb := range neighbours(cfg) {
+			if m, err := cors.NewMiddleware(nb); err == nil {
+				return m, m.Reconfigure(&cfg)
+			}
+		}
+		m, err := cors.NewMiddleware(c05BaseCfg)
+		if err != nil {
+			panic("base config rejected: " + err.Error())
+		}
+		return m, m.Reconfigure(&cfg)
 	default:
 		return cors.NewMiddleware(cfg)
 	}
 }
 
-var entries = []string{"new", "reconf-zero", "reconf-configured"}
+// neighbours returns configurations that differ from cfg in exactly one field (slices are shared: never mutated).
+func neighbours(cfg cors.Config) []cors.Config {
+	var out []cors.Config
+	add := func(f func(c *cors.Config)) {
+		c := cfg
+		f(&c)
+		out = append(out, c)
+	}
+	if cfg.PrivateNetworkAccess {
+		add(func(c *cors.Config) { c.PrivateNetworkAccess = false })
+	}
+	if cfg.PrivateNetworkAccessInNoCORSModeOnly {
+		add(func(c *cors.Config) { c.PrivateNetworkAccessInNoCORSModeOnly = false })
+	}
+	if cfg.Credentialed {
+		add(func(c *cors.Config) { c.Credentialed = false })
+	}
+	if !cfg.DangerouslyTolerateInsecureOrigins {
+		add(func(c *cors.Config) { c.DangerouslyTolerateInsecureOrigins = true })
+	}
+	if !cfg.DangerouslyTolerateSubdomainsOfPublicSuffixes {
+		add(func(c *cors.Config) { c.DangerouslyTolerateSubdomainsOfPublicSuffixes = true })
+	}
+	add(func(c *cors.Config) { c.MaxAgeInSeconds = 7 })
+	add(func(c *cors.Config) { c.PreflightSuccessStatus = 207 })
+	add(func(c *cors.Config) { c.ResponseHeaders = nil })
+	add(func(c *cors.Config) { c.RequestHeaders = nil })
+	add(func(c *cors.Config) { c.Methods = nil })
+	add(func(c *cors.Config) { c.Origins = []string{"https://neighbour.example"} })
+	return out
+}
+
+var entries = []string{"new", "reconf-zero", "reconf-configured", "reconf-neighbour"}
 
 func c05Run(r *Run, l *Local, c *CfgSpec, entry, note string) {
 	want := c.violations()
@@ -366,7 +412,7 @@ func TestVerif_C05(t *testing.T) {
 			if mask&64 != 0 {
 				c.PNA = pnaBoth
 			}
-			entry := entries[i%3]
+			entry := entries[i%len(entries)]
 			c05Run(r, l, c, entry, fmt.Sprintf("field-subset-%07b", mask))
 			nontrivial(l, c, entry)
 			if i == 0 && (mask == 127 || mask == 5) {
@@ -392,7 +438,7 @@ func TestVerif_C05(t *testing.T) {
 				c, names = randInvalidCfg(rng, n)
 				note = strings.Join(names, "+")
 			}
-			entry := entries[rng.IntN(3)]
+			entry := entries[rng.IntN(len(entries))]
 			c05Run(r, l, c, entry, note)
 			nontrivial(l, c, entry)
 			if l.Batch == 1 && i < 3 {
